@@ -37,7 +37,18 @@ def norm(v):
 
 
 def side_fields(s):
-    return {f: norm(getattr(s, "_" + f)) for f in FIELDS}
+    return {f: getattr(s, "_" + f) for f in FIELDS}
+
+
+def same(a, b):
+    """exact, type-sensitive equality at every depth (a tuple hash must come back as a tuple, not a list)"""
+    if type(a) is not type(b):
+        return False
+    if isinstance(a, (list, tuple)):
+        return len(a) == len(b) and all(same(x, y) for x, y in zip(a, b))
+    if isinstance(a, dict):
+        return a.keys() == b.keys() and all(same(a[k], b[k]) for k in a)
+    return a == b
 
 
 def entry_fields(ent):
@@ -49,7 +60,7 @@ def diff(a, b):
     for k in ("side0", "side1"):
         for f in FIELDS:
             x, y = a[k][f], b[k][f]
-            if x != y or type(x) is not type(y):
+            if not same(x, y):
                 if f == "changed" and not x and not y:
                     continue            # None / 0 / False all mean 'no pending change'
                 out.append((k, f, repr(x), repr(y)))
